@@ -685,6 +685,43 @@ func (c *fnCtx) expr(e ast.Expr, en *env) Val {
 			c.fail(x.Pos(), "dereference of %s", v.T.goStr())
 		}
 		return Val{S: v.S, T: v.T.Elem, E: v.E}
+	case *ast.SliceExpr:
+		// l[a:b] of a slice (two-index form); out of range panics (guard; the capacity is taken to be the length)
+		l := c.expr(x.X, en)
+		if l.T.K != kList || x.Slice3 {
+			c.fail(x.Pos(), "slice expression on %s is outside the subset", l.T.goStr())
+		}
+		lo := Val{S: "0", T: tyInt, C: big.NewInt(0)}
+		if x.Low != nil {
+			lo = c.materialise(c.expr(x.Low, en), x.Low.Pos())
+		}
+		hi := Val{S: "(Z.of_nat (List.length " + l.S + "))", T: tyInt}
+		if x.High != nil {
+			hi = c.materialise(c.expr(x.High, en), x.High.Pos())
+		}
+		if lo.T.K != kInt || hi.T.K != kInt {
+			c.fail(x.Pos(), "slice bounds of non-integer type")
+		}
+		eff := cat(l, lo, hi)
+		eff = append(eff, effect{guard: "(((0 <=? " + lo.S + ") && (" + lo.S + " <=? " + hi.S + ")) && (" + hi.S + " <=? (Z.of_nat (List.length " + l.S + "))))"})
+		return Val{S: "(List.firstn (Z.to_nat (" + hi.S + " - " + lo.S + ")) (List.skipn (Z.to_nat " + lo.S + ") " + l.S + "))", T: l.T, E: eff}
+	case *ast.IndexExpr:
+		// read of a slice element: out of range panics (guard); slices are lists
+		l := c.expr(x.X, en)
+		if l.T.K != kList {
+			c.fail(x.Pos(), "index expression on %s is outside the subset", l.T.goStr())
+		}
+		i := c.materialise(c.expr(x.Index, en), x.Index.Pos())
+		if i.T.K != kInt {
+			c.fail(x.Index.Pos(), "index of type %s", i.T.goStr())
+		}
+		eff := cat(l, i)
+		g := "(" + i.S + " <? (Z.of_nat (List.length " + l.S + ")))"
+		if i.C == nil || i.C.Sign() < 0 {
+			g = "((0 <=? " + i.S + ") && " + g + ")"
+		}
+		eff = append(eff, effect{guard: g})
+		return Val{S: "(List.nth (Z.to_nat " + i.S + ") " + l.S + " " + zeroOf(l.T.Elem) + ")", T: l.T.Elem, E: eff}
 	case *ast.UnaryExpr:
 		return c.unary(x, en)
 	case *ast.BinaryExpr:
@@ -1120,6 +1157,16 @@ func (c *fnCtx) call(x *ast.CallExpr, en *env) Val {
 	var recv *Val
 	switch f := x.Fun.(type) {
 	case *ast.Ident:
+		if f.Name == "len" && en.lookup("len") == nil {
+			if len(x.Args) != 1 {
+				c.fail(x.Pos(), "len with %d arguments", len(x.Args))
+			}
+			l := c.expr(x.Args[0], en)
+			if l.T.K != kList {
+				c.fail(x.Pos(), "len of %s is outside the subset", l.T.goStr())
+			}
+			return Val{S: "(Z.of_nat (List.length " + l.S + "))", T: tyInt, E: l.E}
+		}
 		if f.Name == "append" && en.lookup("append") == nil {
 			if len(x.Args) != 2 || x.Ellipsis.IsValid() {
 				c.fail(x.Pos(), "append with other than one appended element is outside the subset")
@@ -1945,7 +1992,7 @@ func (t *tr) translateOnce(fi *funcInfo, key, coq string, partial, fuel bool) *f
 		if name == "_" || name == "" {
 			name = fmt.Sprintf("unused%d", len(out.params))
 		}
-		if ty.K != kInt && ty.K != kBool && ty.K != kStruct && ty.K != kPtr {
+		if ty.K != kInt && ty.K != kBool && ty.K != kStruct && ty.K != kPtr && ty.K != kList {
 			c.fail(pos, "parameter %s of type %s is outside the subset", name, ty.goStr())
 		}
 		if en.lookup(name) != nil {
